@@ -24,12 +24,16 @@ pub struct Recorder {
     pub inner: Inner,
     pub log: Vec<Event>,
     buf: Vec<Vector3D>,
+    /// a run that asks for more gradients than this is stopped (by a panic the caller catches): an optimiser that
+    /// has lost its bound must end up as a reported failure, not as a hung check
+    pub cap: usize,
+    grads: usize,
 }
 
 fn flat_pts(x: &[Point]) -> Vec<f64> { x.iter().flat_map(|p| [p.x, p.y, p.z]).collect() }
 
 impl Recorder {
-    pub fn new(inner: Inner) -> Self { Recorder { inner, log: vec![], buf: vec![] } }
+    pub fn new(inner: Inner) -> Self { Recorder { inner, log: vec![], buf: vec![], cap: usize::MAX, grads: 0 } }
 }
 
 impl Forcefield for Recorder {
@@ -50,6 +54,8 @@ impl Forcefield for Recorder {
         e
     }
     fn gradient(&mut self, x: &[Point]) -> &Vec<Vector3D> {
+        self.grads += 1;
+        if self.grads > self.cap { panic!("request cap exceeded"); }
         let xs = flat_pts(x);
         let g: Vec<f64> = match &mut self.inner {
             Inner::Real(ff) => ff.gradient(x),
@@ -156,11 +162,19 @@ pub fn run_one(out: &mut Out, label: &str, m: &Mol, inner: Inner, max_iter: Opti
     let x0 = flat_pts(&mol.coordinates);
     let mut rec = Recorder::new(inner);
     let budget = max_iter.unwrap_or(500);
+    rec.cap = budget + 25;
     let ok = catch(|| match max_iter {
         None => mol.optimise(&mut rec),
         Some(k) => SteepestDecentOptimiser::from_max_iterations(k).optimise(&mut mol, &mut rec),
     });
-    if ok.is_none() { out.case(&format!("sd-panic {}", label), "panic"); return; }
+    if ok.is_none() {
+        if rec.grads > rec.cap {
+            out.oracle_fail(&format!("{}: more than {} gradients requested with a budget of {} (run stopped there; it may never end)", label, rec.cap, budget),
+                            &format!("{} max_iterations={} start:\n{}", label, budget, m.xyz_text()));
+        }
+        out.case(&format!("sd-panic {}", label), "panic");
+        return;
+    }
     let xf = flat_pts(&mol.coordinates);
     let answers: Vec<String> = rec.log.iter().map(|e| match e { Event::E(_, v) => format!("e {}", hx(*v)), Event::G(_, g) => format!("g {}", hexs(g)) }).collect();
     let reqs: Vec<String> = rec.log.iter().map(|e| match e { Event::E(x, _) => format!("E{:016x}", fnv(x)), Event::G(x, _) => format!("G{:016x}", fnv(x)) }).collect();
